@@ -171,7 +171,9 @@ const watchdog = 30 * time.Second
 
 // call sends one request; the first part of the answer is a status word:
 // whatever the child says, or "timeout" / "crash" (out of memory, fatal error).
-func call(wp **worker, parts ...[]byte) [][]byte {
+func call(wp **worker, parts ...[]byte) [][]byte { return callT(wp, watchdog, parts...) }
+
+func callT(wp **worker, limit time.Duration, parts ...[]byte) [][]byte {
 	if *wp == nil {
 		*wp = startWorker()
 	}
@@ -197,7 +199,7 @@ func call(wp **worker, parts ...[]byte) [][]byte {
 			return [][]byte{[]byte("crash")}
 		}
 		return r.parts
-	case <-time.After(watchdog):
+	case <-time.After(limit):
 		w.kill()
 		*wp = nil
 		return [][]byte{[]byte("timeout")}
